@@ -391,12 +391,12 @@ func kPlan(thorough bool) []*KConfig {
 		return c
 	}
 	if !thorough {
-		return []*KConfig{pick("K1-default", 5), pick("K2-nocache", 4), pick("K3a-shared-lru-1", 5), pick("K4-sessions-slru-1", 4), pick("K7-narrow-deep", 6)}
+		return []*KConfig{pick("K1-default", 5), pick("K2-nocache", 4), pick("K3a-shared-lru-1", 5), pick("K4-sessions-slru-1", 4), pick("K8-shared-ik2-sk1", 4), pick("K7-narrow-deep", 6)}
 	}
 	return []*KConfig{
 		pick("K1-default", 6), pick("K2-nocache", 5), pick("K3a-shared-lru-1", 6), pick("K3b-shared-lfu-1", 5), pick("K3c-shared-slru-1", 5), pick("K3d-shared-tinylfu-1", 5),
 		pick("K4-sessions-slru-1", 5), pick("K5a-sk-only", 5), pick("K5b-ik-only", 5), pick("K6-shared-lru-2", 5), pick("K1-default-full", 5),
-		pick("K7-narrow-deep", 8), pick("K7s-narrow-deep-shared", 7),
+		pick("K8-shared-ik2-sk1", 5), pick("K7-narrow-deep", 8), pick("K7s-narrow-deep-shared", 7),
 	}
 }
 
